@@ -60,7 +60,7 @@ static int reb_reb_tree_get_octant_for_particle_in_cell(const struct reb_particl
   */
 static struct reb_treecell *reb_tree_add_particle_to_cell(struct reb_simulation* const r, struct reb_treecell *node, int pt, struct reb_treecell *parent, int o);
 
-void reb_tree_add_particle_to_tree(struct reb_simulation* const r, int pt){
+int reb_tree_add_particle_to_tree(struct reb_simulation* const r, int pt){
 	if (r->tree_root==NULL){
 		r->tree_root = calloc(r->N_root_x*r->N_root_y*r->N_root_z,sizeof(struct reb_treecell*));
 	}
@@ -70,9 +70,12 @@ void reb_tree_add_particle_to_tree(struct reb_simulation* const r, int pt){
 	// Do not add particles that do not belong to this tree (avoid removing active particles)
 	int N_root_per_node = r->N_root/r->mpi_num;
 	int proc_id = rootbox/N_root_per_node;
-	if (proc_id!=r->mpi_id) return;
+	if (proc_id!=r->mpi_id) return 1;
 #endif 	// MPI
+	// The leaf that receives the particle sets particles[pt].c. It stays NULL if the tree refuses the particle.
+	r->particles[pt].c = NULL;
 	r->tree_root[rootbox] = reb_tree_add_particle_to_cell(r, r->tree_root[rootbox],pt,NULL,0);
+	return r->particles[pt].c != NULL;
 }
 
 static struct reb_treecell *reb_tree_add_particle_to_cell(struct reb_simulation* const r, struct reb_treecell *node, int pt, struct reb_treecell *parent, int o){
@@ -122,9 +125,11 @@ static struct reb_treecell *reb_tree_add_particle_to_cell(struct reb_simulation*
 		node->oct[o2] = reb_tree_add_particle_to_cell(r, node->oct[o2], pt, node, o2);
 		node->pt = -2;
 	}else{ // It's not a leaf
-		node->pt--;
 		int o = reb_reb_tree_get_octant_for_particle_in_cell(particles[pt], node);
 		node->oct[o] = reb_tree_add_particle_to_cell(r, node->oct[o], pt, node, o);
+		if (particles[pt].c != NULL){ // Count the particle only if it was inserted (identical coordinates are refused).
+			node->pt--;
+		}
 	}
 	return node;
 }
